@@ -12,11 +12,11 @@ CLAIMED = {
  "C01": ("path-sensitive effect summaries over go/ssa (all paths of Update) + zone domain + who-may-call queries",
          "Decides the inductive step of the append-only invariant on every control-flow path of Update for every ordering of sizes (guarded accept, proof argument positions, single write handle, sole writer via the call graph, first use only on an exact NotFound, accepted implies committed on the composition Update∘store for both stores). Not the cryptographic/numeric validity of proofs; not histories as executions.", "5/C01"),
  "C02": ("path-sensitive provenance analysis over go/ssa (authentication dominates every use) + composition Update∘store",
-         "Decides that an unknown log is refused first and that every storage call/signature/field read in Update is preceded by a successful ParseCheckpoint under exactly the configured origin and verifier of the named log; configuration map keyed by ID(origin); the bastion endpoint hands the witness the request's checkpoint bytes unmodified; on the composition with both stores the authenticated checkpoint is stored under the request's own log ID. Crypto soundness of note.Open trusted.", "5/C02"),
+         "Decides that an unknown log is refused first and that every storage call/signature/field read in Update is preceded by a successful ParseCheckpoint under exactly the configured origin and verifier of the named log; configuration map keyed by ID(origin); the bastion endpoint hands the witness the request's checkpoint bytes unmodified; on the composition with both stores the authenticated checkpoint is stored under the request's own log ID. Crypto soundness of note.Open trusted. Also: witness.New hands the configured log map, signers and store to the witness unchanged and never writes the map; the module implements no note.Verifier/Signer of its own.", "5/C02"),
  "C03": ("path-sensitive effect summaries (no Set / no leak on refusal paths) + composition Update/GetCheckpoint/GetLogs∘store + composition endpoint∘Update outcome classes",
-         "Decides that no refusal path of Update can write or return anything but nil/the stored bytes, that on the composed paths with either store a refusal leaves the store untouched and read paths never mutate and return only what the database/the map holds (no state outside the store), that requests the endpoint refuses (429/400/404) never reach the witness, and that the endpoint never writes through the bytes the witness returned. Does not compare runtime byte values.", "5/C03"),
+         "Decides that no refusal path of Update can write or return anything but nil/the stored bytes, that on the composed paths with either store a refusal leaves the store untouched and read paths never mutate and return only what the database/the map holds (no state outside the store), that requests the endpoint refuses (429/400/404) never reach the witness, and that the endpoint never writes through the bytes the witness returned. Does not compare runtime byte values. Also: the error returned for a refused update is never formatted from the cosigned bytes, non-200 answers carry no text from the witness, and the adapter passes the witness's results through.", "5/C03"),
  "C04": ("value-identity (provenance) analysis over path summaries + handler-verbatim rule",
-         "Decides returned==stored==Sign(verified note, all signers) on every success path, no short-circuit, reads verbatim from the store and through the HTTP read handler, SQL success only through Commit. Signature validity and timestamp value are trusted to x/mod note and formats/note.", "5/C04"),
+         "Decides returned==stored==Sign(verified note, all signers) on every success path, no short-circuit, reads verbatim from the store and through the HTTP read handler, SQL success only through Commit. Signature validity and timestamp value are trusted to x/mod note and formats/note. Also: nothing is appended or copied into the backing array of a stored checkpoint (earlier reads alias it), and the bundled client returns the whole body of a 200 answer.", "5/C04"),
  "C05": ("lockset + compare-and-set with lock epochs + transaction-scope + immutability analyses on the compositions root∘concrete store",
          "Necessary structural conditions only (level other): on Update/GetCheckpoint/GetLogs composed with the in-memory store every map access is under the lock (writes under the exclusive lock, released on all exits, no re-entrant locking) and the map is written only after re-reading the same key inside the writing critical section and finding it equal to the snapshot taken when the write operation was opened; composed with SQL: read/exec/commit/rollback on one transaction keyed by the request's log ID; first use only on affirmative absence; no nested storage access; package variables assigned only at init/Once; checkpoint bytes never modified in place. Linearizability itself, SQLite isolation and schedules are not explored.", "5/C05"),
  "C06": ("ordering (must-pass-through) analysis over path summaries + SQL statement tokenizer (writer/reader agreement)",
@@ -32,23 +32,23 @@ CLAIMED = {
  "C11": ("sibling agreement (writer vs reader) over path summaries + refusal-totality + disallowed-call query",
          "Narrow structural claim (level other): same base64 object/terminator/prefix in writers and readers, error returns carry nothing else, success only after the blank separator, strict whole-string integer parsing, order-preserving element construction, an ownership rule (a bufio ReadLine view is never retained un-copied), unbounded line split. Round-trip equality of values is not decided (O1).", "5/C11"),
  "C13": ("provenance analysis over the path summaries of FeedOnce with the retried operation inlined (captured variables it assigns are carried-over unknowns)",
-         "Decides verify-before-submit, anchoring of old size and proof to the witness's latest of the same attempt (nothing is reused from an earlier attempt), never-when-ahead, retry bound to the context, result pass-through, adapter mapping, no leaked transaction behind the witness. Retry convergence and timing are not decided.", "5/C13"),
+         "Decides verify-before-submit, anchoring of old size and proof to the witness's latest of the same attempt (nothing is reused from an earlier attempt), never-when-ahead, retry bound to the context, result pass-through, adapter mapping, no leaked transaction behind the witness. Retry convergence and timing are not decided. Also: fetch functions make their network calls under the context they are called with, and no closure built in FeedLog captures FeedLog's own context.", "5/C13"),
  "C15": ("provenance + implied-fact (zone) analysis over the path summaries of distributeForLog/DistributeOnce + Main wiring",
-         "Decides PUT-verbatim, verify-before-PUT with exactly two verified signatures, target URL construction, success implies status == 200 with method PUT, per-log isolation and failure accounting (loop unrolled twice), counters by metric name, and that Main hands the distributor every configured log. Signature validity and net/http behaviour trusted.", "5/C15"),
+         "Decides PUT-verbatim, verify-before-PUT with exactly two verified signatures, target URL construction, success implies status == 200 with method PUT, per-log isolation and failure accounting (loop unrolled twice), counters by metric name, and that Main hands the distributor every configured log. Signature validity and net/http behaviour trusted. Also: the response of a failed request is never dereferenced.", "5/C15"),
  "C16": ("value-identity analysis over handler/client path summaries + code tables + route-pattern check against the ID alphabet",
-         "Decides handler-verbatim, NotFound<->404<->os.ErrNotExist mappings on implied facts, log list = JSON of storage keys, route pattern admits every hex ID, returned==stored in Update, the shared client never writes through its receiver. Routing internals of gorilla/mux trusted.", "5/C16"),
+         "Decides handler-verbatim, NotFound<->404<->os.ErrNotExist mappings on implied facts, log list = JSON of storage keys, route pattern admits every hex ID, returned==stored in Update, the shared client never writes through its receiver. Routing internals of gorilla/mux trusted. The handlers are found through the router (HandleFunc/Handle run as higher-order calls), not by name.", "5/C16"),
  "C12": ("key pass-through/provenance analysis over path summaries + sibling agreement over the feeder registry + constructor-discipline queries",
          "Decides that the request's log ID is the only key used in Update and both stores, that every origin->ID derivation is formats/log.ID(origin), that feeders/bastion/distributor use {ID, Origin, Verifier} of one config.Log, that duplicates are refused before start-up, that the origin check binds a checkpoint to its log ID, and that no cross-log mutable state exists. Executions of interleaved histories are not explored.", "5/C12"),
  "C14": ("wiring analysis over the path summaries of Main with goroutine bodies inlined (errgroup.Go as a higher-order call), Run, connectAndServe + enum exhaustiveness over the feeder registry",
          "Narrow structural claim (level other): one witness instance behind every component, every registry feeder has an implementation, each launched feeder runs as feeder(group context, its own log, the adapter around that witness, client, poll interval) with log and feeder taken from one (config.NewLog(E), E.Feeder.FeedFunc()) pair, one goroutine per pair, service loops return only on context end, first-feed proof is empty, proof builders are per call, tile URLs follow tlog's layout, the fork guard and nothing that can wedge the shared witness. Convergence, timing and restarts are not decided.", "5/C14"),
  "C17": ("configuration lint: every entry of the embedded YAML files validated against constraint sets extracted from the code on each run (incl. numeric start-up checks evaluated for 32- and 64-bit int)",
-         "Exhaustive over the finite set of shipped entries: key parses (production parser), ID unique, feeder known, URL acceptable to its feeder (required parameters, schemes, integer parses on both word sizes); plus code-side exhaustiveness, abort-on-error wiring, (log, feeder) pairing, every configured log reaches the bastion/distributor list, NewLog passes the configured values through unchanged. Does not decide that the keys/URLs are the right ones.", "5/C17"),
+         "Exhaustive over the finite set of shipped entries: key parses (production parser), ID unique, feeder known, URL acceptable to its feeder (required parameters, schemes, integer parses on both word sizes); plus code-side exhaustiveness, abort-on-error wiring, (log, feeder) pairing, every configured log reaches the bastion/distributor list, NewLog passes the configured values through unchanged. Does not decide that the keys/URLs are the right ones. Also: if any production decoder of the configuration rejects unknown fields, every key of every shipped entry is a declared field; witness.New keeps the configured map as it is.", "5/C17"),
  "C18": ("string-template normalisation of every URL reaching the SumDB fetcher on ReadTiles∘client (Sprintf/concatenation/strconv reduced to literal, decimal and zero-padded pieces) compared with tlog's layout + plumbing analysis",
-         "Narrow structural claim (level other): every tile URL is tile/<H>/<L>/[x<NNN>/]*<NNN>[.p/<W>] with H the reader's height, L and the index those of the requested tile, base-1000 digit groups emitted exactly under the matching range conditions (up to three groups explored), the partial suffix exactly for tiles narrower than 1<<H carrying t.W; height constants coherent; ProveTree arguments in position; empty-proof shortcut only for from.Size == 0; Accept-Encoding never set by hand. Proof acceptance is NOT decided.", "5/C18"),
+         "Narrow structural claim (level other): every tile URL is tile/<H>/<L>/[x<NNN>/]*<NNN>[.p/<W>] with H the reader's height, L and the index those of the requested tile, base-1000 digit groups emitted exactly under the matching range conditions (up to three groups explored), the partial suffix exactly for tiles narrower than 1<<H carrying t.W; height constants coherent; ProveTree arguments in position; empty-proof shortcut only for from.Size == 0; Accept-Encoding never set by hand. Proof acceptance is NOT decided. Also: read limits are positive constants; the feeder's proof is requested for the latest checkpoint of the same attempt.", "5/C18"),
  "C19": ("reachability of panic sites in the network-input call graph + zone-domain discharge of every index/slice site on every path + bounded-narrowing rule + constant checks of caps/time-outs",
-         "Structural necessary conditions (level other): no reachable explicit panic, every implicit-panic instruction dominated by bounds facts or in a reasoned table, bounded size narrowing before tlog, bounded make() lengths, one status per path, 16 KiB cap, time-outs present, no request path leaves the storage connection pinned. Termination in general, memory exhaustion and dependency panics are not decided.", "5/C19"),
+         "Structural necessary conditions (level other): no reachable explicit panic, every implicit-panic instruction dominated by bounds facts or in a reasoned table, bounded size narrowing before tlog, bounded make() lengths, one status per path, 16 KiB cap, time-outs present, no request path leaves the storage connection pinned. Termination in general, memory exhaustion and dependency panics are not decided. Also: sizes handed to tlog are bounded by 2^62-1 (tlog evaluates maxpow2(size+1)); every mutex taken in the module is released on every returning path; every counter increment passes as many label values as the counter has labels; a failed response is never dereferenced.", "5/C19"),
  "C20": ("path-sensitive effect summaries: outcome-to-counter table over all paths of Update",
-         "Decides exactly-once increments per outcome with counters identified by the metric name they were created with (found by running the function that only Once.Do runs), label provenance, creation only under the Once, constructors create the counters before anything else.", "5/C20"),
+         "Decides exactly-once increments per outcome with counters identified by the metric name they were created with (found by running the function that only Once.Do runs), label provenance, creation only under the Once, constructors create the counters before anything else. Also: increments pass as many label values as the counter was created with.", "5/C20"),
 }
 
 NA = {
